@@ -1343,3 +1343,8 @@ Definition encodev (c : ecodec) (item : encoded) : wr * ecodec :=
   | Err e => (([], Err e), c')
   | _ => ((w, r), c')
   end.
+
+(* names used by the statements about the codec *)
+Definition item := decoded.
+Definition encoded_size (limit : N) (p : packet) : N := packet_encoded_size p limit.
+Definition encode (p : packet) (size : N) : wr := packet_encode p size.
